@@ -287,3 +287,58 @@ def _sort(eng, st, obj, args, kwargs, node, site):
 @lib('call:nptype')
 def _call_nptype(eng, st, f, args, kwargs, node):
 	yield from call_nptype(eng, st, f.data['dt'], args, node)
+
+
+# ---- real-valued vectors (distance rows): SSeq of TReal ------------------------------------------------------------
+
+def _realvec(st, v):
+	v = st.deref(v)
+	if isinstance(v, SSeq) and v.T is TReal:
+		return v
+	raise Unsupported(f'expected a real vector, got {v!r}')
+
+
+@lib('numpy.argmin')
+def _argmin(eng, st, args, kwargs, node):
+	"""index of the first minimum; ValueError on an empty array (NaN-free input)"""
+	d = _realvec(st, args[0])
+	for s2, empty in eng.branch(st, d.length == 0):
+		if empty:
+			yield s2, Raised('ValueError')
+			continue
+		a = z3.Int(fresh_name('argmin'))
+		j = z3.Int(fresh_name('j'))
+		s2.assume(z3.And(0 <= a, a < d.length,
+			z3.ForAll([j], z3.Implies(z3.And(0 <= j, j < d.length), z3.Select(d.arr, a) <= z3.Select(d.arr, j))),
+			z3.ForAll([j], z3.Implies(z3.And(0 <= j, j < a), z3.Select(d.arr, a) < z3.Select(d.arr, j)))))
+		r = SInt(a)
+		r.npint = True
+		yield s2, r
+
+
+@lib('numpy.argsort')
+def _argsort(eng, st, args, kwargs, node):
+	"""a permutation of 0..n-1 that sorts the values in non-decreasing order.  The default kind ('quicksort') is
+	documented as NOT stable: nothing is promised about the order of equal values.  kind='stable' (or 'mergesort')
+	additionally orders equal values by index."""
+	d = _realvec(st, args[0])
+	kind = kwargs.get('kind', args[2] if len(args) > 2 else None)
+	n = d.length
+	r = mk_ndarray(st, 'argsort', DType('i', 8), length=n, ref=False, constrain=False)
+	inv = z3.Function(fresh_name('rank'), I, I)
+	p, q, j = z3.Int(fresh_name('p')), z3.Int(fresh_name('q')), z3.Int(fresh_name('j'))
+	st.assume(z3.ForAll([j], z3.Implies(z3.And(0 <= j, j < n), z3.And(0 <= r.at(j), r.at(j) < n, inv(r.at(j)) == j))))
+	st.assume(z3.ForAll([j], z3.Implies(z3.And(0 <= j, j < n), z3.And(0 <= inv(j), inv(j) < n, r.at(inv(j)) == j)),
+	                    patterns=[inv(j), z3.Select(d.arr, j)]))   # (also triggered by a look-up of d[j])
+	st.assume(z3.ForAll([p, q], z3.Implies(z3.And(0 <= p, p < q, q < n), z3.Select(d.arr, r.at(p)) <= z3.Select(d.arr, r.at(q)))))
+	if kind in ('stable', 'mergesort'):
+		st.assume(z3.ForAll([p, q], z3.Implies(z3.And(0 <= p, p < q, q < n, z3.Select(d.arr, r.at(p)) == z3.Select(d.arr, r.at(q))), r.at(p) < r.at(q))))
+		# consequence (stated for the solver's benefit): the first entry is the first minimum
+		st.assume(z3.Implies(n > 0, z3.And(
+			z3.ForAll([j], z3.Implies(z3.And(0 <= j, j < n), z3.Select(d.arr, r.at(0)) <= z3.Select(d.arr, j))),
+			z3.ForAll([j], z3.Implies(z3.And(0 <= j, j < r.at(0)), z3.Select(d.arr, r.at(0)) < z3.Select(d.arr, j))))))
+	elif kind not in (None, 'quicksort', 'heapsort'):
+		raise Unsupported(f'argsort kind {kind!r}')
+	ref = Ref('ndarray')
+	st.heap[ref.addr] = r
+	yield st, ref
